@@ -89,17 +89,19 @@ Definition in_proved_nobase3 (input : list N) : bool :=
   || in_class_noscheme_nobase input.
 
 (* a reference with a scheme of its own that makes both sides ignore the base (Proofs/C01_EqAbs.v: not
-   file, and non-special or different from the scheme of the base), and that is in a no-base class *)
+   file, and non-special or different from the scheme of the base; Proofs/C01_EqSpBase.v: the special scheme
+   of the base followed by two slashes / backslashes), and that is in a no-base class *)
 Definition in_class_abs_base (sb : spec_url) (input : list N) : bool :=
   match spec_scheme (spec_clean input) with
-  | Some (sch, _) => base_ignored (Some sb) sch && in_proved_nobase3 input
+  | Some (sch, R) => (base_ignored (Some sb) sch || same_two_sl sb sch R) && in_proved_nobase3 input
   | None => false
   end.
 
 (* scheme-less references against a special non-file base with a host (Proofs/C01_EqSpBase.v) *)
 Definition in_class_relative_s (sb : spec_url) (input : list N) : bool :=
   in_class_rel_abs_s sb input || in_class_rel_path_s sb input
-  || (scheme_canon (su_scheme sb) && in_class_rel_authority_s sb input).
+  || (scheme_canon (su_scheme sb) && in_class_rel_authority_s sb input)
+  || in_class_same_abs_s sb input || in_class_same_path_s sb input.
 
 Definition in_proved_class3 (sbase : option spec_url) (input : list N) : bool :=
   match sbase with
@@ -355,12 +357,20 @@ Proof.
            unfold in_class_abs_base in Habs.
            destruct (spec_scheme (spec_clean input)) as [[sch R0]|] eqn:Es; [|discriminate Habs].
            apply andb_true_iff in Habs. destruct Habs as [Hbi Hnb].
-           rewrite (model_base_ignored dbg hp hpo hd None b sb shs input sch R0 R Es Hbi).
-           apply (agree_good_outcome_eq _ _ _ (spec_base_ignored shp (Some sb) input sch R0 Es Hbi)).
-           exact (partial_nobase_good3 None input Hu (or_introl eq_refl) Hnb HH).
+           pose proof (partial_nobase_good3 None input Hu (or_introl eq_refl) Hnb HH) as A0.
+           apply orb_true_iff in Hbi. destruct Hbi as [Hbi|Hbi].
+           ++ rewrite (model_base_ignored dbg hp hpo hd None b sb shs input sch R0 R Es Hbi).
+              exact (agree_good_outcome_eq _ _ _ (spec_base_ignored shp (Some sb) input sch R0 Es Hbi) A0).
+           ++ pose proof Hbi as Hbi0. unfold same_two_sl in Hbi0.
+              apply andb_true_iff in Hbi0. destruct Hbi0 as [Hbi0 H2sl]. apply andb_true_iff in Hbi0. destruct Hbi0 as [Hbi0 Hnf0].
+              apply andb_true_iff in Hbi0. destruct Hbi0 as [_ Hsp0]. apply negb_true_iff in Hnf0.
+              rewrite (model_same_two_sl dbg hp hpo hd None b input sch R0 Es Hsp0 Hnf0 H2sl).
+              exact (agree_good_outcome_eq _ _ _ (spec_same_two_sl shp sb input sch R0 Es Hbi) A0).
         -- (* special base *)
            cbn [orb] in Hc. unfold in_class_relative_s in Hc. apply orb_true_iff in Hc.
-           destruct Hc as [Hc|Hc]; [apply orb_true_iff in Hc; destruct Hc as [Hc|Hc]|].
+           destruct Hc as [Hc|Hc];
+             [apply orb_true_iff in Hc; destruct Hc as [Hc|Hc];
+              [apply orb_true_iff in Hc; destruct Hc as [Hc|Hc]; [apply orb_true_iff in Hc; destruct Hc as [Hc|Hc]|]|]|].
            ++ destruct (class_rel_abs_s dbg hp hpo hd shp shs input b sb Hu R Hcan Hc) as (su & -> & Hbo & A).
               split; [exact Hbo | exact A].
            ++ destruct (class_rel_path_s dbg hp hpo hd shp shs input b sb Hu R Hok Hc) as (su & -> & Hbo & A).
@@ -370,6 +380,10 @@ Proof.
               apply agree_good_intro.
               ** exact (class_rel_authority_s dbg hp hpo hd shp shs input b sb Hu R Hcan Hc HH).
               ** intros su HS. exact (rel_authority_s_result_ok shp input sb su Hcan Hc HS).
+           ++ destruct (class_same_abs_s dbg hp hpo hd shp shs input b sb Hu R Hcan Hc) as (su & -> & Hbo & A).
+              split; [exact Hbo | exact A].
+           ++ destruct (class_same_path_s dbg hp hpo hd shp shs input b sb Hu R Hok Hc) as (su & -> & Hbo & A).
+              split; [exact Hbo | exact A].
   - (* no base *)
     exact (partial_nobase_good3 None input Hu (or_introl eq_refl) Hc HH).
 Qed.
